@@ -267,6 +267,7 @@ def write_evidence(ctx, mod, violations):
         'traces_validated_against_impl': ctx.stats.get('traces_validated_against_impl', 0),
         'distribution': ctx.stats.get('distribution', {}),
         'translator': ctx.stats.get('translator', {}),
+        'translator_dis': ctx.stats.get('translator_dis', {}),
         'leanchecker': ctx.stats.get('leanchecker', 'not run (quick tier)'),
         'broken': ctx.broken,
         'source_units_differing_from_pinned_tree': ctx.stats.get('source_units_changed', []),
